@@ -35,6 +35,12 @@ type c15Plan struct {
 	// StartNr: the packets enqueued on the receive side are numbered like the packets of a logical channel,
 	// from this number on (the numbers wrap after 255).
 	StartNr int `json:"start_nr,omitempty"`
+	// Side "send2": two goroutines write integers of Width bytes (2, 4 or 8) to one queue at the same time, N1 and N2
+	// of them (the queue's own mutex is a scheduling point in these runs); read back afterwards, every value is there
+	// exactly once and each writer's values are in its order.
+	Width int `json:"width,omitempty"`
+	N1    int `json:"n1,omitempty"`
+	N2    int `json:"n2,omitempty"`
 }
 
 type c15 struct{}
@@ -103,6 +109,9 @@ func (c15) Gen(r *Rand, idx int, tier string) interface{} {
 		}
 		p.Ops = append(p.Ops, qOp{Op: "bytes", N: 3}, qOp{Op: "bytes", N: total - 3 - r.Intn(3), Alt: 1}, qOp{Op: "toend"})
 		return p
+	}
+	if r.Pct(3) {
+		return &c15Plan{Side: "send2", Size: 9 + r.Intn(100), Width: Pick(r, []int{2, 4, 8}), N1: 1 + r.Intn(12), N2: 1 + r.Intn(12)}
 	}
 	p := &c15Plan{Size: 9 + r.Intn(592), StartNr: Pick(r, []int{0, 0, 250, 253, 255})}
 	if r.Pct(25) {
@@ -251,7 +260,7 @@ func (c15) Run(plan interface{}, schedSeed uint64, replay []simrt.Choice, lenien
 			viol = []string{class, sig, fmt.Sprintf(format, a...)}
 		}
 	}
-	s := simrt.New(simrt.Config{Seed: schedSeed, ColdQueueLocks: true, Replay: replay, Lenient: lenient, KeepLog: keepLog, MaxSteps: 100000})
+	s := simrt.New(simrt.Config{Seed: schedSeed, ColdQueueLocks: p.Side != "send2", Replay: replay, Lenient: lenient, KeepLog: keepLog, MaxSteps: 100000})
 	out := s.Run(func() {
 		size := p.Size
 		q := tds.NewPacketQueue(func() int { return size })
@@ -263,6 +272,67 @@ func (c15) Run(plan interface{}, schedSeed uint64, replay []simrt.Choice, lenien
 				next = next*5 + 3
 			}
 			return b
+		}
+		if p.Side == "send2" {
+			writer := func(w, n int) func() {
+				return func() {
+					for i := 0; i < n; i++ {
+						val := uint64(w)<<8 | uint64(i+1)
+						var err error
+						switch p.Width {
+						case 2:
+							err = q.WriteUint16(uint16(val))
+						case 4:
+							err = q.WriteUint32(uint32(val)<<8 | 0x5a)
+						default:
+							err = q.WriteUint64(val<<40 | 0x5a5a5a5a5a)
+						}
+						if err != nil {
+							fail("write-error", "write returned an error", "writer %d, value %d: %v", w, i+1, err)
+						}
+					}
+				}
+			}
+			a, b := simrt.Spawn("writer1", writer(1, p.N1)), simrt.Spawn("writer2", writer(2, p.N2))
+			simrt.Join(a, b)
+			q.SetPosition(0, 0)
+			next := map[int]int{1: 1, 2: 1}
+			for k := 0; k < p.N1+p.N2 && len(viol) == 0; k++ {
+				var val uint64
+				var err error
+				switch p.Width {
+				case 2:
+					var x uint16
+					x, err = q.Uint16()
+					val = uint64(x)
+				case 4:
+					var x uint32
+					x, err = q.Uint32()
+					if x&0xff != 0x5a {
+						fail("wrong-bytes", "concurrent writers: a value is torn", "value #%d read back as %#x", k, x)
+					}
+					val = uint64(x >> 8)
+				default:
+					var x uint64
+					x, err = q.Uint64()
+					if x&0xffffffffff != 0x5a5a5a5a5a {
+						fail("wrong-bytes", "concurrent writers: a value is torn", "value #%d read back as %#x", k, x)
+					}
+					val = x >> 40
+				}
+				if err != nil {
+					fail("spurious-error", "concurrent writers: written values do not read back", "value #%d of %d: %v", k, p.N1+p.N2, err)
+					break
+				}
+				w, i := int(val>>8), int(val&0xff)
+				if (w != 1 && w != 2) || i != next[w] {
+					fail("wrong-bytes", "concurrent writers: values lost, duplicated or out of order", "value #%d read back is (writer %d, number %d); expected number %d of writer 1 or %d of writer 2", k, w, i, next[1], next[2])
+					break
+				}
+				next[w]++
+			}
+			crossed = true
+			return
 		}
 		if p.Side == "recv" {
 			var all []byte // bytes of all packets since the last reset/discard point
@@ -693,5 +763,5 @@ func opsString(ops []qOp) string {
 
 // RequiredProbes: a batch in which one of these never fired explored nothing of that kind (exit 2, not a pass).
 func (c15) RequiredProbes() []string {
-	return []string{"crossed-packet-boundary", "enumerated", "side:send", "side:recv", "write-at-the-end-of-an-exactly-filled-packet", "read-of-16-MiB"}
+	return []string{"crossed-packet-boundary", "enumerated", "side:send", "side:recv", "side:send2", "write-at-the-end-of-an-exactly-filled-packet", "read-of-16-MiB"}
 }
